@@ -1135,8 +1135,12 @@ OFFS = [0.0, 0.0, 1e-8, 2e-7, 1e-3, 0.3]
 def gen_grid_history(rng, npts):
     h = []
     for _ in range(rng.randint(1, 7)):
-        if rng.random() < 0.6:
-            h.append(["clamp", rng.randrange(npts), rng.choice(OFFS), rng.randrange(3)])
+        if rng.random() < 0.2:
+            # a vertex moves (what an optimization does through GridBase.update); later positions are matched against the
+            # vertices where they are NOW, also when the position named is where a vertex used to be
+            h.append(["move", rng.randrange(npts), rng.choice([0.25, -0.25, 0.5]), rng.randrange(3)])
+        elif rng.random() < 0.6:
+            h.append(["clamp", rng.randrange(npts), rng.choice(OFFS), rng.randrange(3)] + (["old"] if rng.random() < 0.4 else []))
         else:
             a = rng.randrange(npts)
             b = a if rng.random() < 0.15 else rng.randrange(npts)
@@ -1166,18 +1170,31 @@ def run_grid_history(h, hex_grid=True):
     from classy_blocks.optimize.grid import HexGrid
     from classy_blocks.optimize.clamps.free import FreeClamp
     from classy_blocks.optimize.links import TranslationLink
-    pts, addr = grid_points()
-    grid = HexGrid(pts.copy(), addr)
+    import numpy as np
+    pts0, addr = grid_points()
+    grid = HexGrid(pts0.copy(), addr)
+    pts = [[float(x) for x in p] for p in pts0]   # where the vertices are now
+    old = [[float(x) for x in p] for p in pts0]   # where they were at the start
+    leaders = set()
     out, model = [], []
     for c in h:
-        if c[0] == "clamp":
-            p = _pos(pts, c[1], c[2], c[3])
+        if c[0] == "move":
+            if c[1] in leaders:
+                continue  # a leader drags its followers along: not part of this model
+            pts[c[1]] = _pos(pts, c[1], c[2], c[3])
+            grid.update(c[1], np.array(pts[c[1]]))
+        elif c[0] == "clamp":
+            p = _pos(old if c[-1] == "old" else pts, c[1], c[2], c[3])
             model.append(("clamp", _match(pts, p)))
             out.append(attempt(lambda: grid.add_clamp(FreeClamp(p)))[0] == "ok")
         else:
             pl, pf = _pos(pts, c[1], c[2], c[3]), _pos(pts, c[4], c[5], c[6])
-            model.append(("link", _match(pts, pl), _match(pts, pf)))
-            out.append(attempt(lambda: grid.add_link(TranslationLink(pl, pf)))[0] == "ok")
+            ml, mf = _match(pts, pl), _match(pts, pf)
+            model.append(("link", ml, mf))
+            ok = attempt(lambda: grid.add_link(TranslationLink(pl, pf)))[0] == "ok"
+            out.append(ok)
+            if ok and isinstance(ml, int):
+                leaders.add(ml)
     return out, model
 
 
